@@ -39,6 +39,14 @@ props = {
    "trusted_base": [T_SSA, T_SOLV, T_HTML, T_REPARSE, T_IO, T_RE, T_STR, "ground facts normalise(\"script\") == \"script\", normalise(\"style\") == \"style\" (axiom normalise-script; evaluated on the real normaliseElementName by the selftest)"],
    "not_decided": ["letter-case folding of tag names is the tokenizer's (T3: tag names arrive ASCII-lower-cased)"],
    "level_text": "Proof for all policies (including ones that name script/style, match them by pattern or un-skip their content) and all token streams: with allowUnsafe false, every write site carries emitC05: no start/end/self-closing tag named script or style is serialised, and a text token that directly follows a script/style start tag (its raw text, T3) is never written."},
+ "C11": {"title": "Link hardening: nofollow, noreferrer, noopener and _blank are really present",
+   "runs": [{"fn": [P+"sanitizeAttrs", "bluemonday.hasRelToken", P+"init"], "beh": ""}], "timeout": 20, "min_obligations": 150,
+   "trusted_base": [T_SSA, T_SOLV, T_STR,
+      "assumed contract of strings.Fields / strings.EqualFold (specs/lib/strings.spec): Fields returns the whitespace-separated fields, EqualFold is a pure function",
+      "string axioms tok-add, tok-keep, tok-lit (specs/vocab.spec): appending \" tok\" to a token list adds tok and keeps the other tokens (T9; bounded-validated in the thorough tier)",
+      "assumed contract of url.Parse: hasHost(raw) abstracts 'raw parses and has a non-empty host' (T5)"],
+   "not_decided": ["'required tokens are not duplicated' (a statement about the string contents of rel)", "an <a target=_blank> without href gets no noopener: the antecedent includes the presence of an href, as the code's does"],
+   "level_text": "Proof for all policies and attribute lists: hasRelToken is proved equal to token membership (hasTok, defined over strings.Fields and EqualFold); sanitizeAttrs ensures for a/area/link with an href that, under the (fully-qualified) nofollow / noreferrer options, a rel attribute exists and every rel attribute has the token; for a with a host-qualified href under AddTargetBlankToFullyQualifiedLinks that a target attribute exists and the first one is _blank; and that whenever an a with an href ends up with a _blank target every rel has noopener and one exists. The argument is carried by loop invariants on the three link-pass loops, lemmas at the loop exits and at three cut points, through the crossorigin and sandbox passes."},
  "C12": {"title": "Forced attributes: crossorigin=anonymous and iframe sandbox",
    "runs": [{"fn": [P+"sanitizeAttrs", P+"init"], "beh": ""}], "timeout": 20, "min_obligations": 100,
    "trusted_base": [T_SSA, T_SOLV, T_STR, "strings.Join(elems, sep) is a function of the element sequence and the separator; strings.Fields returns a fresh slice (T7)"],
